@@ -322,7 +322,12 @@ pub fn simulate(plan_json: &str, sched: &Sched, classifier: Option<fn(&str) -> (
     detsim::set_abort_hook(on_abort);
     let ((), stats) = detsim::run(sched.to_config(), body);
     finish();
-    build_result(None, &stats)
+    let mut res = build_result(None, &stats);
+    // in sync granularity a run in which the scheduler never had a choice is trivial
+    if sched.sync && stats.decisions == 0 {
+        res.nontrivial = false;
+    }
+    res
 }
 
 // ---- engine interface ------------------------------------------------------------------------
